@@ -72,10 +72,14 @@ type rect struct {
 	// x, y, width, height are common attributes
 
 	rx, ry Value
+
+	// an unspecified radius uses the resolved length of the other one
+	hasRx, hasRy bool
 }
 
 func newRect(node *cascadedNode, _ *svgContext) (drawable, error) {
 	rx_, ry_ := node.attrs["rx"], node.attrs["ry"]
+	hasRx, hasRy := rx_ != "", ry_ != ""
 	if rx_ == "" {
 		rx_ = ry_
 	} else if ry_ == "" {
@@ -83,7 +87,7 @@ func newRect(node *cascadedNode, _ *svgContext) (drawable, error) {
 	}
 
 	var (
-		out rect
+		out = rect{hasRx: hasRx, hasRy: hasRy}
 		err error
 	)
 	out.rx, err = parseValue(rx_)
@@ -105,6 +109,11 @@ func (r rect) draw(dst backend.Canvas, attrs *attributes, _ *SVGImage, dims draw
 	}
 	x, y := dims.point(attrs.x, attrs.y)
 	rx, ry := dims.point(r.rx, r.ry)
+	if !r.hasRx {
+		rx = ry
+	} else if !r.hasRy {
+		ry = rx
+	}
 
 	if rx == 0 || ry == 0 { // no border radius
 		dst.Rectangle(x, y, width, height)
